@@ -8,4 +8,6 @@ for p in "$@"; do
   echo "$out" | grep -E "failing|implementation:|specification:" | head -3
 done
 git -C /repo checkout -- .
+# the source-derived Coq files were regenerated from the changed tree: regenerate them from the restored one
+(cd /verif && for g in src_constants ast_translate ast_translate64 ast_translate_ptr ast_translate_out ast_translate_zone; do python3 gen/$g.py >/dev/null 2>&1; done)
 git -C /repo status --short | grep -v _build | head -3
